@@ -1,15 +1,32 @@
 import H2.Client.Recv
+import H2.Proofs.HpackEnc
 /-!
 # C18 (client half) — SETTINGS are acknowledged one for one and the server's limits persist
 
 Serial model of the read loop (`rdFrame`, `handleSettings`, `applyPairs`) and of `CanOpenStream` /
-`writeRequest`, after fix F47 (a SETTINGS frame no longer resets what it does not mention).
+`writeRequest`, after fix F47 (a SETTINGS frame no longer resets what it does not mention) and the repair of
+F09c: every SETTINGS_HEADER_TABLE_SIZE value reaches the write loop's encoder as "smallest since the last
+request, then last" (`noted_*`, `applied_*`, `dip_announced`), so a size that dips and comes back is announced.
 Not met and recorded as known: ENABLE_PUSH=0 is never transmitted (F35); a request's header block is
 one HEADERS frame whatever the server's MAX_FRAME_SIZE (F33, shared with the server half).
 -/
 namespace H2.Props.C18c
 
 open H2.Client
+
+theorem noteTableSizes_outQ (c : Conn) (ps : List (Nat × Nat)) :
+    (noteTableSizes c ps).outQ = c.outQ ∧ (noteTableSizes c ps).pending = c.pending ∧
+    (noteTableSizes c ps).streamWindow = c.streamWindow := by
+  induction ps generalizing c with
+  | nil => exact ⟨rfl, rfl, rfl⟩
+  | cons p ps ih =>
+    obtain ⟨k, v⟩ := p
+    simp only [noteTableSizes]
+    obtain ⟨h1, h2, h3⟩ := ih (if (k == Gen.c_HeaderTableSize) = true then
+        { c with encTableMin := if (!c.encTableSet || decide (v < c.encTableMin)) = true then v else c.encTableMin
+                 encTableSize := v, encTableSet := true } else c)
+    rw [h1, h2, h3]
+    split <;> exact ⟨rfl, rfl, rfl⟩
 
 theorem applyPairs_outQ (c : Conn) (ps : List (Nat × Nat)) : (applyPairs c ps).outQ = c.outQ := by
   induction ps generalizing c with
@@ -27,8 +44,8 @@ theorem acks (c : Conn) (f : Frame.Frame) (s : Frame.SettingsVal) (hs : f.stream
   simp only [rdFrame, hs, hb, hna, beq_self_eq_true, if_true, Bool.false_eq_true, if_false, handleSettings, queueOut]
   constructor
   · split
-    · simp [applyInitialWindow, applyPairs_outQ]
-    · simp [applyPairs_outQ]
+    · simp [applyInitialWindow, applyPairs_outQ, (noteTableSizes_outQ _ _).1]
+    · simp [applyPairs_outQ, (noteTableSizes_outQ _ _).1]
   · trivial
 
 /-- an acknowledgement from the server is not acknowledged back -/
@@ -76,6 +93,215 @@ theorem concurrent_streams_obeyed (c : Conn) (r : ReqSpec) :
 theorem frame_size_recorded (c : Conn) (v : Nat) :
     (applyPairs c [(Gen.c_MaxFrameSize, v)]).maxFrameSize = v := by
   simp [applyPairs, Gen.c_MaxFrameSize, Gen.c_HeaderTableSize, Gen.c_MaxConcurrentStreams]
+
+/-! ## SETTINGS_HEADER_TABLE_SIZE: every change reaches the encoder (repair of F09c) -/
+
+/-- the values a SETTINGS frame carries for the header table size, in order -/
+def tableVals (ps : List (Nat × Nat)) : List Nat := (ps.filter fun p => p.1 == Gen.c_HeaderTableSize).map (·.2)
+
+/-- the hand-over as a function of the values alone: (anything to apply, smallest, last) -/
+def noteVals : Bool × Nat × Nat → List Nat → Bool × Nat × Nat
+  | s, [] => s
+  | (set, mn, _), v :: vs => noteVals (true, if !set || v < mn then v else mn, v) vs
+
+theorem noteTableSizes_eq (ps : List (Nat × Nat)) : ∀ c : Conn,
+    ((noteTableSizes c ps).encTableSet, (noteTableSizes c ps).encTableMin, (noteTableSizes c ps).encTableSize) =
+      noteVals (c.encTableSet, c.encTableMin, c.encTableSize) (tableVals ps) := by
+  induction ps with
+  | nil => intro c; rfl
+  | cons p ps ih =>
+    intro c
+    obtain ⟨k, v⟩ := p
+    simp only [noteTableSizes]
+    by_cases hk : (k == Gen.c_HeaderTableSize) = true
+    · have tv : tableVals ((k, v) :: ps) = v :: tableVals ps := by simp [tableVals, hk]
+      simp only [hk, if_true, tv, noteVals]
+      rw [ih]
+    · have tv : tableVals ((k, v) :: ps) = tableVals ps := by simp [tableVals, hk]
+      simp only [hk, Bool.false_eq_true, if_false, tv]
+      rw [ih]
+
+/-- the smallest handed over is at most every value sent, and at most what was waiting already -/
+theorem noteVals_min (vs : List Nat) : ∀ (set : Bool) (mn last : Nat),
+    (∀ v ∈ vs, (noteVals (set, mn, last) vs).2.1 ≤ v) ∧ (set = true → (noteVals (set, mn, last) vs).2.1 ≤ mn) := by
+  induction vs with
+  | nil => intro set mn last; exact ⟨fun v hv => by simp at hv, fun _ => Nat.le_refl _⟩
+  | cons w ws ih =>
+    intro set mn last
+    simp only [noteVals]
+    obtain ⟨i1, i2⟩ := ih true (if (!set || decide (w < mn)) = true then w else mn) w
+    have i2 := i2 rfl
+    refine ⟨?_, ?_⟩
+    · intro v hv
+      simp only [List.mem_cons] at hv
+      rcases hv with rfl | hv
+      · refine Nat.le_trans i2 ?_
+        split
+        · exact Nat.le_refl _
+        · rename_i h; simp at h; omega
+      · exact i1 v hv
+    · intro hs
+      refine Nat.le_trans i2 ?_
+      subst hs
+      simp only [Bool.not_true, Bool.false_or, decide_eq_true_eq]
+      split <;> omega
+
+/-- it is one of the values sent when nothing was waiting: no lower than it has to be -/
+theorem noteVals_attained (vs : List Nat) : ∀ (set : Bool) (mn last : Nat),
+    (noteVals (set, mn, last) vs).2.1 ∈ vs ∨ ((noteVals (set, mn, last) vs).2.1 = mn ∧ (set = true ∨ vs = [])) := by
+  induction vs with
+  | nil => intro set mn last; right; exact ⟨rfl, .inr rfl⟩
+  | cons w ws ih =>
+    intro set mn last
+    simp only [noteVals]
+    rcases ih true (if (!set || decide (w < mn)) = true then w else mn) w with h | ⟨h, _⟩
+    · left; exact List.mem_cons_of_mem _ h
+    · rw [h]
+      by_cases hc : (!set || decide (w < mn)) = true
+      · left; simp [hc]
+      · right
+        simp only [hc, Bool.false_eq_true, if_false, true_and]
+        left
+        cases set <;> simp_all
+
+/-- and the last is the last -/
+theorem noteVals_last (vs : List Nat) : ∀ (s : Bool × Nat × Nat) (h : vs ≠ []),
+    (noteVals s vs).1 = true ∧ (noteVals s vs).2.2 = vs.getLast h := by
+  induction vs with
+  | nil => intro s h; exact absurd rfl h
+  | cons w ws ih =>
+    intro s h
+    obtain ⟨set, mn, last⟩ := s
+    simp only [noteVals]
+    by_cases he : ws = []
+    · subst he; simp [noteVals]
+    · obtain ⟨j1, j2⟩ := ih (true, (if (!set || decide (w < mn)) = true then w else mn), w) he
+      exact ⟨j1, by rw [j2, List.getLast_cons he]⟩
+
+/-- **every change reaches the write loop**: with nothing waiting, a SETTINGS frame that carries table sizes hands over
+their minimum (at most each of them, and one of them) and the last of them -/
+theorem noted (c : Conn) (ps : List (Nat × Nat)) (hs : c.encTableSet = false) (hne : tableVals ps ≠ []) :
+    (noteTableSizes c ps).encTableSet = true ∧
+    (∀ v ∈ tableVals ps, (noteTableSizes c ps).encTableMin ≤ v) ∧
+    (noteTableSizes c ps).encTableMin ∈ tableVals ps ∧
+    (noteTableSizes c ps).encTableSize = (tableVals ps).getLast hne := by
+  have e := noteTableSizes_eq ps c
+  have e1 : (noteTableSizes c ps).encTableSet = (noteVals (c.encTableSet, c.encTableMin, c.encTableSize) (tableVals ps)).1 :=
+    congrArg (·.1) e
+  have e2 : (noteTableSizes c ps).encTableMin = (noteVals (c.encTableSet, c.encTableMin, c.encTableSize) (tableVals ps)).2.1 :=
+    congrArg (·.2.1) e
+  have e3 : (noteTableSizes c ps).encTableSize = (noteVals (c.encTableSet, c.encTableMin, c.encTableSize) (tableVals ps)).2.2 :=
+    congrArg (·.2.2) e
+  obtain ⟨l1, l2⟩ := noteVals_last (tableVals ps) (c.encTableSet, c.encTableMin, c.encTableSize) hne
+  refine ⟨e1.trans l1, ?_, ?_, e3.trans l2⟩
+  · intro v hv; rw [e2]; exact (noteVals_min _ _ _ _).1 v hv
+  · rw [e2]
+    rcases noteVals_attained (tableVals ps) c.encTableSet c.encTableMin c.encTableSize with h | ⟨_, h | h⟩
+    · exact h
+    · rw [hs] at h; cases h
+    · exact absurd h hne
+
+/-- with something waiting already (several SETTINGS frames between two requests) the minimum only goes down -/
+theorem noted_again (c : Conn) (ps : List (Nat × Nat)) (hs : c.encTableSet = true) :
+    (noteTableSizes c ps).encTableMin ≤ c.encTableMin ∧ ∀ v ∈ tableVals ps, (noteTableSizes c ps).encTableMin ≤ v := by
+  have e2 : (noteTableSizes c ps).encTableMin = (noteVals (c.encTableSet, c.encTableMin, c.encTableSize) (tableVals ps)).2.1 :=
+    congrArg (·.2.1) (noteTableSizes_eq ps c)
+  rw [e2]
+  exact ⟨(noteVals_min _ _ _ _).2 hs, (noteVals_min _ _ _ _).1⟩
+
+open H2.Hpack in
+/-- **the table obeys the smallest limit**: after `writeRequest` has told its encoder, the encoder's table is no
+larger than the smallest SETTINGS_HEADER_TABLE_SIZE the server asked for in between (the size its own decoder may
+have shrunk to), and its limit is the last value -/
+theorem applied_within_min (c : Conn) (hs : c.encTableSet = true) (hle : c.encTableMin ≤ c.encTableSize)
+    (hfit : tableSize c.enc.dyn ≤ c.enc.maxSize) :
+    tableSize (applyTable c).dyn ≤ c.encTableMin ∧ (applyTable c).maxSize = c.encTableSize := by
+  simp only [applyTable, hs, if_true]
+  by_cases h1 : c.enc.maxSize = c.encTableMin
+  · have e1 : c.enc.setMax c.encTableMin = c.enc := by simp [EncState.setMax, h1]
+    rw [e1]
+    by_cases h2 : c.enc.maxSize = c.encTableSize
+    · have e2 : c.enc.setMax c.encTableSize = c.enc := by simp [EncState.setMax, h2]
+      rw [e2]; exact ⟨by omega, h2⟩
+    · simp only [EncState.setMax, h2, if_false]
+      refine ⟨?_, trivial⟩
+      rw [evict_of_fits _ _ (by omega)]; omega
+  · have e1 : (c.enc.setMax c.encTableMin).dyn = evict c.enc.dyn c.encTableMin ∧
+        (c.enc.setMax c.encTableMin).maxSize = c.encTableMin := by simp [EncState.setMax, h1]
+    by_cases h2 : c.encTableMin = c.encTableSize
+    · have e2 : ∀ E : EncState, E.maxSize = c.encTableSize → E.setMax c.encTableSize = E := by
+        intro E h; simp [EncState.setMax, h]
+      rw [e2 _ (e1.2.trans h2), e1.1, e1.2]
+      exact ⟨evict_fits _ _, h2⟩
+    · have e2 : ((c.enc.setMax c.encTableMin).setMax c.encTableSize).dyn = evict (evict c.enc.dyn c.encTableMin) c.encTableSize ∧
+          ((c.enc.setMax c.encTableMin).setMax c.encTableSize).maxSize = c.encTableSize := by
+        simp [EncState.setMax, h1, h2]
+      rw [e2.1, e2.2, evict_evict, Nat.min_eq_left hle]
+      exact ⟨evict_fits _ _, rfl⟩
+
+open H2.Hpack in
+/-- **a dip is announced**: if the server asked for less than the encoder's table limit at any point since the last
+request, the next header block opens with dynamic table size updates: the encoder is left with an announcement
+pending whose minimum is at most that value, whatever the last value is (4096 → 0 → 4096 included) -/
+theorem dip_announced (c : Conn) (hs : c.encTableSet = true) (hdip : c.encTableMin < c.enc.maxSize) :
+    (applyTable c).pending = true ∧ (applyTable c).minPending ≤ c.encTableMin ∧
+    (applyTable c).maxSize = c.encTableSize := by
+  have h1 : ¬ c.enc.maxSize = c.encTableMin := by omega
+  have e1 : (c.enc.setMax c.encTableMin).pending = true ∧ (c.enc.setMax c.encTableMin).minPending ≤ c.encTableMin ∧
+      (c.enc.setMax c.encTableMin).maxSize = c.encTableMin := by
+    simp only [EncState.setMax, h1, if_false]
+    refine ⟨trivial, ?_, trivial⟩
+    split
+    · exact Nat.le_refl _
+    · rename_i h; simp at h; omega
+  simp only [applyTable, hs, if_true]
+  generalize c.enc.setMax c.encTableMin = E at e1
+  obtain ⟨p1, p2, p3⟩ := e1
+  simp only [EncState.setMax]
+  split
+  · rename_i h; exact ⟨p1, p2, h⟩
+  · refine ⟨rfl, ?_, rfl⟩
+    simp only [p1, Bool.not_true, Bool.false_or, decide_eq_true_eq]
+    split <;> omega
+
+/-- any change at all is announced -/
+theorem change_announced (c : Conn) (hs : c.encTableSet = true)
+    (hch : c.encTableMin ≠ c.enc.maxSize ∨ c.encTableSize ≠ c.enc.maxSize) : (applyTable c).pending = true := by
+  simp only [applyTable, hs, if_true]
+  by_cases h1 : c.enc.maxSize = c.encTableMin
+  · have e1 : c.enc.setMax c.encTableMin = c.enc := by simp [Hpack.EncState.setMax, h1]
+    have h2 : ¬ c.enc.maxSize = c.encTableSize := by omega
+    rw [e1]; simp [Hpack.EncState.setMax, h2]
+  · have e1 : (c.enc.setMax c.encTableMin).pending = true := by simp [Hpack.EncState.setMax, h1]
+    generalize c.enc.setMax c.encTableMin = E at e1
+    simp only [Hpack.EncState.setMax]
+    split
+    · exact e1
+    · rfl
+
+/-- nothing to apply, nothing changes -/
+theorem nothing_noted_nothing_applied (c : Conn) (hs : c.encTableSet = false) : applyTable c = c.enc := by
+  simp [applyTable, hs]
+
+/-! ### the input of finding F09c: 4096 → 0 → 4096 between two requests, now a regression example -/
+
+def cF09 : Conn := { enc := { dyn := [([0x78], [0x79])] } }
+
+/-- both values in one SETTINGS frame: "0, then 4096" is handed over, and the encoder then has both to announce -/
+theorem F09c_regression :
+    let c := handleSettings cF09 { pairs := [(Gen.c_HeaderTableSize, 0), (Gen.c_HeaderTableSize, 4096)] }
+    (c.encTableSet, c.encTableMin, c.encTableSize) = (true, 0, 4096) ∧
+    ((applyTable c).pending, (applyTable c).minPending, (applyTable c).maxSize) = (true, 0, 4096) := by
+  decide
+
+/-- in two frames likewise -/
+example :
+    let c := handleSettings (handleSettings cF09 { pairs := [(Gen.c_HeaderTableSize, 0)] }) { pairs := [(Gen.c_HeaderTableSize, 4096)] }
+    ((applyTable c).pending, (applyTable c).minPending, (applyTable c).maxSize) = (true, 0, 4096) := by
+  decide
+
+/-- what the code did before: told of the last value only, the encoder announced nothing -/
+example : (cF09.enc.setMax 4096).pending = false := by decide
 
 /-- non-vacuity of `acks` -/
 example : ∃ c f s, f.stream = 0 ∧ f.body = Frame.Body.settings s ∧ s.ack = false ∧
